@@ -104,6 +104,7 @@ type world struct {
 	byAddr  map[string][2]int    // address text -> (candidate index, family)
 	vis     map[string]*visInfo
 	nk      map[string]int // slot|client -> key draws the handler takes
+	dr      map[string][]row
 }
 
 func setKey(set []sym) string {
@@ -169,7 +170,7 @@ func fileText(set []sym, both bool) string {
 var scratchDir string
 
 func openWorld(set []sym, b dnsfix.Backend) *world {
-	w := &world{set: set, backend: b, both: len(set) <= 2, rows: map[string][]row{}, byAddr: map[string][2]int{}}
+	w := &world{set: set, backend: b, both: len(set) <= 2 && (b == dnsfix.CDB || len(set) == 1), rows: map[string][]row{}, byAddr: map[string][2]int{}}
 	w.text = fileText(set, w.both)
 	p, err := dnsfix.Compile(scratchDir, b, []byte(w.text))
 	if err != nil {
@@ -247,12 +248,20 @@ func (w *world) close() {
 // drawRows are the rows that consume one key draw each, in order, when the
 // slot's query is served for a client in location cl.
 func (w *world) drawRows(s slot, cl string) []row {
-	var out []row
+	ck := s.String() + "|" + cl
+	if v, ok := w.dr[ck]; ok {
+		return v
+	}
+	if w.dr == nil {
+		w.dr = map[string][]row{}
+	}
+	out := []row{}
 	for _, r := range w.rows[s.owner()+"|"+cl] {
 		if s.Fam == 0 || r.Fam == s.Fam {
 			out = append(out, r)
 		}
 	}
+	w.dr[ck] = out
 	return out
 }
 
@@ -266,7 +275,14 @@ type worldCache struct {
 
 var cache = &worldCache{m: map[string]*world{}, cap: 48}
 
+// RocksDB worlds are expensive to build (every compile allocates two 100000-entry batches) and few: kept apart
+var rdbCache = &worldCache{m: map[string]*world{}, cap: 200}
+
 func getWorld(set []sym, b dnsfix.Backend) *world {
+	cache := cache
+	if b != dnsfix.CDB {
+		cache = rdbCache
+	}
 	k := b.String() + "|" + setKey(set)
 	if w, ok := cache.m[k]; ok {
 		return w
@@ -285,10 +301,12 @@ func getWorld(set []sym, b dnsfix.Backend) *world {
 }
 
 func closeWorlds() {
-	for _, k := range cache.order {
-		cache.m[k].close()
+	for _, cache := range []*worldCache{cache, rdbCache} {
+		for _, k := range cache.order {
+			cache.m[k].close()
+		}
+		cache.m, cache.order = map[string]*world{}, nil
 	}
-	cache.m, cache.order = map[string]*world{}, nil
 }
 
 // visInfo: the declared candidates of a slot that a client location may see,
